@@ -15,7 +15,7 @@ LEVEL = "exploration"
 
 def describe(tier):
     return {
-        "rule": "TLS: every table suite x valid version (x EtM, x TLS 1.3 hs secrets) with a 6-record history, every cipher-state class "
+        "rule": "TLS: every table suite x valid version (x EtM, x TLS 1.3 hs secrets) with a 6-record history ended by closing alerts (per cipher-state class also by a heartbeat record, which -a must not add), every cipher-state class "
                 "with a full-duplex capture (records spanning segments, packets of the other direction between them) and with captures in which consecutive writes share segments (server / client speaking first, MSS 1460/400/77), and every handshake "
                 "shape within 1 deviation for 9 classes; QUIC: default connection and every 1-deviation scenario of C02's menu; each "
                 "run with and without -a. non-trivial: the -a output holds strictly more payload-carrying packets than the plain "
@@ -72,6 +72,20 @@ def tls_pair(scn, seed, sig, fails, duplex=False, merged_mss=None):
         fails.append({"kind": "application_packets_changed_by_metadata", "sig": sig,
                       "detail": f"{len(seq_p)} payload packets without -a are not a subsequence of the {len(seq_m)} with -a"})
         return False
+    # what -a adds must be handshake, alert or change-cipher-spec material: no added packet may be a piece of a record of
+    # another kind (application-data ciphertext, a record of another content type)
+    extra = list(seq_m)
+    for x in seq_p:
+        if x in extra:
+            extra.remove(x)
+    for d, payload in extra:
+        if len(payload) < 7:
+            continue
+        for r in conn.records:
+            if r.kind in ("app", "other") and r.dir == ("c" if d == "c2s" else "s") and payload in r.raw:
+                fails.append({"kind": "metadata_adds_other_material", "sig": dict(sig, record_kind=r.kind),
+                              "detail": f"-a adds a packet with {len(payload)} bytes of a record of content type {r.raw[0]} ({r.kind})"})
+                return False
     want_c = (conn.plain["c"], conn.plain["s"])
     if cp is None or (cp["c2s"], cp["s2c"]) != want_c:
         fails.append({"kind": "plain_export_wrong", "sig": sig, "detail": "export without -a differs from the plaintext"})
@@ -152,6 +166,7 @@ def run_case(case):
             sp = iana.parse_name(scen.suite_name(code))
         except Exception:
             return {"n": 0}
+        reps = {(c[0], c[1], c[2], c[3]) for c in c01.classes()}
         for v in (tls.SSL30, tls.TLS10, tls.TLS11, tls.TLS12, tls.TLS13):
             if not tls.suite_valid_for(sp, v):
                 continue
@@ -159,7 +174,12 @@ def run_case(case):
                 for hs in ([True, False] if v == tls.TLS13 else [True]):
                     scn = {"version": v, "suite": code, "etm": etm, "hs_secrets": hs, "tickets": 1 if v == tls.TLS13 else 0,
                            "history": [("c", 40), ("s", 100), ("s", 0), ("c", 7), ("s", 300), ("c", 1)]}
+                    scn["close_alerts"] = ("c", "s") if code % 2 else ("s", "c")
                     tls_one(scn, {"layer": "A", "class": c01.class_name(v, code, etm, hs), "suite": f"{code:#06x}"})
+                    if (v, code, etm, hs) in reps:
+                        for d in ("c", "s"):
+                            tls_one(dict(scn, close_alerts=None, trailing_other=(d,)),
+                                    {"layer": "A", "class": c01.class_name(v, code, etm, hs), "suite": f"{code:#06x}", "trailing_heartbeat": d})
     elif case["layer"] == "D":
         v, code, etm, hs = case["v"], case["suite"], case["etm"], case["hs"]
         scn = {"version": v, "suite": code, "etm": etm, "hs_secrets": hs,
